@@ -45,6 +45,8 @@ def c08(tier):
     cw.cw2(P, C, only=("writesplinefitstable", "writesplinefitstable_mem"))
     if tier == "thorough":
         py_write(P, C)
+    # the other half of the property: a truncated file is rejected, not loaded as another table (reader's full-range validations)
+    vg.vg2(P, C)
     ed.ed5(P, C)
     C.extra["units"] = sorted(P.units.keys())
     C.extra["cfitsio_call_sites"] = n
@@ -165,6 +167,8 @@ def c07(tier):
     fs.fs7(P, C)
     cw.cw1(P, C, only=("readsplinefitstable", "readsplinefitstable_mem"))
     cw.cw2(P, C, only=("readsplinefitstable", "readsplinefitstable_mem"))
+    # the C readers leave the handle null or valid whatever happens to the read
+    cw.cw4(P, C, only=("readsplinefitstable", "readsplinefitstable_mem"))
     C.extra["units"] = sorted(P.units.keys())
     return C.finish()
 
@@ -241,6 +245,9 @@ def c04(tier):
               "(loop invariants over runtime knots).",
               assumptions=["ordered (non-NaN) comparison semantics for SC-1; NaN is decided under C05 (SC-4)"])
     P = core.load(tier=tier, extra_units=selftest.UNITS)
+    selftest.run(P, C, ('env1',))
+    # comparisons mean what they say only while nobody switches the FPU to flush-to-zero / another rounding mode
+    ed.env1(P, C)
     kb.sc123(P, C)
     C.extra["units"] = sorted(P.units.keys())
     return C.finish()
@@ -265,6 +272,9 @@ def c03(tier):
     # the value path (bsplvb_simple), the derivative path and the gradient path (bspline_nonzero) must treat the margins alike
     kb.kb2(P, C)
     kb.kb2b(P, C)
+    # bit-identity between paths presupposes one floating-point environment; every path refuses the same tables (lane cap)
+    ed.env1(P, C)
+    kb.kb3(P, C)
     C.extra["cores_compared"] = n
     C.extra["units"] = sorted(P.units.keys())
     return C.finish()
